@@ -22,24 +22,25 @@ import (
 )
 
 type Config struct {
-	Repo      string
-	Tags      string
-	Pkg       string // "." or "./internal/hmac"
-	Overlay   map[string]string
-	Workers   int
-	TimeoutMs int
-	Seed      int
-	MaxInstrs int
-	NoMerge   bool
-	Unwind    int
-	UnwindCut bool
-	RecLimit  int
-	MaxViol   int
-	MaxPaths  int
-	ReplayDir string
-	Verbose   bool
-	Tier      string
-	Known     map[string]bool
+	Repo         string
+	Tags         string
+	Pkg          string // "." or "./internal/hmac"
+	Overlay      map[string]string
+	Workers      int
+	TimeoutMs    int
+	Seed         int
+	MaxInstrs    int
+	NoMerge      bool
+	Unwind       int
+	UnwindCut    bool
+	RecLimit     int
+	MaxViol      int
+	MaxPaths     int
+	ReplayDir    string
+	Verbose      bool
+	Tier         string
+	SelfRecLimit int
+	Known        map[string]bool
 }
 
 type Engine struct {
@@ -329,7 +330,7 @@ func (g *Engine) RunHarness(name string) *Result {
 func (g *Engine) newExec(pre []int, sol *Solver) *Exec {
 	return &Exec{eng: g, tb: newTB(), sol: sol, prefix: pre, globals: map[*ssa.Global]*Obj{}, inited: map[*ssa.Package]bool{},
 		reach: map[string]bool{}, asserts: map[string]int{}, funcs: map[string]bool{}, mutex: map[string]*mutexState{},
-		pools: map[string][]Value{}, ufApps: map[string][]*ufApp{}, pdoms: map[*ssa.Function][]int{},
+		recCount: map[*ssa.Function]int{}, pools: map[string][]Value{}, ufApps: map[string][]*ufApp{}, pdoms: map[*ssa.Function][]int{},
 		unwind: g.cfg.Unwind, unwindCut: g.cfg.UnwindCut, recLimit: g.cfg.RecLimit}
 }
 
